@@ -50,6 +50,7 @@ def _argtext(call):
 
 
 def run(repo, rep, tier):
+    no_memo_tables(repo, rep, 'C12.R12')
     namespace_validated_first(repo, rep, 'C12.R10', lambda n: 'Class' in n or 'Qualifier' in n)
     r1 = rep.rule('C12.R1', 'CIM names are compared case-insensitively')
     r2 = rep.rule('C12.R2', 'no uncalled string method in a comparison')
@@ -816,3 +817,79 @@ def namespace_validated_first(repo, rep, rid, select):
                         % (name, names[:3]))
     if n < 2:
         raise AnalysisError('%s: only %d operations selected' % (rid, n))
+
+
+def memo_stores(func):
+    """statements `T[k] = <call>` that run only when `k not in T` holds:
+    the fill step of a hand-written memo table"""
+    from ..cfg import stmt_facts
+    out = []
+    for st, (fs, _t) in stmt_facts(func.node).items():
+        if not (isinstance(st, ast.Assign) and len(st.targets) == 1 and
+                isinstance(st.targets[0], ast.Subscript) and
+                isinstance(st.value, ast.Call)):
+            continue
+        tab, key = norm(st.targets[0].value), norm(st.targets[0].slice)
+        for t, pol in fs:
+            if isinstance(t, ast.Compare) and len(t.ops) == 1 and \
+                    norm(t.left) == key and \
+                    norm(t.comparators[0]) == tab and \
+                    ((isinstance(t.ops[0], ast.NotIn) and pol) or
+                     (isinstance(t.ops[0], ast.In) and not pol)):
+                out.append(st)
+                break
+    return out
+
+
+def no_memo_tables(repo, rep, rid):
+    """C12.R12: the mock server answers from the repository as it is now.
+    A table on a provider object that is filled once per key with the result
+    of a repository read (`if k not in self.T: self.T[k] = self.get_class(
+    ...)`) keeps returning the class as it was when the key was first used:
+    after the class is modified, or deleted and created again, new
+    subclasses are resolved against the stale copy (inherited elements that
+    no ancestor declares, a deleted superclass accepted)."""
+    r = rep.rule(rid, 'no per-key memo table is filled from repository reads')
+    READS = ('get_class', 'get_instance', 'get_qualifier', '_get_',
+             'get_class_store', 'iter_values', 'iter_names', 'object_exists',
+             'EnumerateClasses', 'GetClass', 'resolve')
+    nfun = 0
+    for m in repo.modules.values():
+        if not m.relpath.startswith('pywbem_mock/'):
+            continue
+        for f in m.all_funcs():
+            nfun += 1
+            for st in memo_stores(f):
+                tab = st.targets[0].value
+                d = dotted(st.value.func) or norm(st.value.func, 60)
+                persistent = isinstance(tab, ast.Attribute) and \
+                    isinstance(tab.value, ast.Name) and \
+                    tab.value.id in ('self', 'cls')
+                reads = any(x in d for x in READS) or \
+                    (isinstance(st.value.func, ast.Attribute) and
+                     st.value.func.attr == 'get' and
+                     'store' in norm(st.value.func.value))
+                if not (persistent and reads):
+                    continue
+                r.sites += 1
+                r.functions.add(f.fq)
+                r.ob(False, '%s|%s' % (f.qualname, norm(st, 60)))
+                rep.finding(r, f.qualname, norm(st, 80), 'memo-table',
+                            m.relpath, st.lineno,
+                            '%s is filled once per key from %s(): the '
+                            'entry outlives later changes of the repository '
+                            '(ModifyClass, DeleteClass + CreateClass), so '
+                            'objects resolved afterwards are built from a '
+                            'stale copy' % (norm(tab), d))
+    r.sites += 1
+    r.ob(nfun > 200, 'functions-scanned', {'functions': nfun})
+    if nfun < 200:
+        raise AnalysisError('%s: only %d functions scanned' % (rid, nfun))
+    probe = ast.parse('def f(self, k):\n    if k not in self.t:\n'
+                      '        self.t[k] = self.get_class(k)\n'
+                      '    return self.t[k]\n').body[0]
+
+    class _F:
+        node = probe
+    if len(memo_stores(_F)) != 1:
+        raise AnalysisError(rid + ' recogniser broken')
